@@ -1,4 +1,6 @@
 """C09 - conservation of objects."""
+import os
+
 from harness import boot  # noqa
 from harness import steps
 from harness.checklib import main
@@ -32,6 +34,8 @@ def run(ctx, replay=None):
             sc.run_step_part(ctx, f'local{h}x{w}k{k}_{cname}', sc.local_jobs(h, w, k, helds=helds),
                              dict(comps=steps.COMPOSITIONS[cname], space=steps.family_space(h, w), via='direct'),
                              PREFIX)
+    sc.history_part(ctx, PREFIX, ['gv_keydoor.5x5.yaml', 'gv_keydoor.7x7.yaml', 'gv_dynamic_obstacles.5x5.yaml', 'gv_dynamic_obstacles.7x7.yaml'] if ctx.quick else [os.path.basename(x) for x in __import__('harness.config', fromlist=['x']).shipped_files()],
+                    400 if ctx.quick else 5000, range(2) if ctx.quick else range(6))
     ctx.cov['exhaustive'] = True
 
 
